@@ -72,10 +72,11 @@ def encQK : QK → String
   | some k => encKey k
   | none => toString flushCode
 
+/-- how the application ended: the abort handler (c-c) was called, or an accepting one -/
 def kindOf (tr : List Disp) : String :=
-  match tr.getLast? with
-  | some (.call ks) => if ks.getLast? == some Key.abort then "-2" else "-1"
-  | _ => "-1"
+  if tr.any (fun d => match d with
+      | .call ks _ => ks.getLast? == some Key.abort
+      | .drop _ => false) then "-2" else "-1"
 
 def encResB (r : List Disp × Emacs.S) : String := s!"{kindOf r.1}:{encStr r.2.e.text}"
 
@@ -89,6 +90,11 @@ def startEvB (s : BSt) : BSt :=
   let s1 := Buf.step T s .start
   if s1.kp.done then Buf.step T s1 .finish else s1
 
+/-- the flush timer fires; when the flushed key ends the application, `await f` returns -/
+def timeoutEvB (s : BSt) : BSt :=
+  let s1 := Buf.step T s .timeout
+  if s1.kp.done && !s.kp.done then Buf.step T s1 .finish else s1
+
 def initB : BSt := Buf.St.init ⟨⟨[], 0⟩, false⟩
 
 def goB (k : Nat) : Nat → BSt → List String → Option BSt
@@ -98,7 +104,7 @@ def goB (k : Nat) : Nat → BSt → List String → Option BSt
     | [] => some st
     | "s" :: ts => goB k fuel (if st.results.length < k then startEvB st else st) ts
     | "f" :: ts => goB k fuel (Buf.step T st .finish) ts
-    | "t" :: ts => goB k fuel (Buf.step T st .timeout) ts
+    | "t" :: ts => goB k fuel (timeoutEvB st) ts
     | "r" :: n :: ts =>
       match decNat n with
       | some n => goB k fuel (Buf.step T st (.read n)) ts
@@ -128,7 +134,7 @@ def stepLineB (bs : B.BSt) (kmax : Nat) (toks : List String) : Option B.BSt :=
     | none => none
   | ["BS"] => some (if bs.results.length < kmax then B.startEvB bs else bs)
   | ["BR", n] => (decNat n).map fun n => Buf.step B.T bs (.read n)
-  | ["BT"] => some (Buf.step B.T bs .timeout)
+  | ["BT"] => some (B.timeoutEvB bs)
   | ["BF"] => some (Buf.step B.T bs .finish)
   | _ => none
 
